@@ -14,6 +14,7 @@ name is `u_` + label.lower() without needing a slug function.
 """
 from . import spec
 
+SYMBOL_LABELS = ["%", "->", "***", "\u266a", "-", "_", " ", "...", "(!)", "\u00b1"]
 WORDS = ["Cutoff", "Reso", "Drive", "Mix", "Depth", "Rate", "Width", "Tone", "Gain", "Amount", "Shape", "Speed"]
 EMBED_TYPES = ["Amplifier", "Filter", "Delay", "Distortion", "Flanger", "Reverb", "Compressor", "Eq"]
 
@@ -43,12 +44,14 @@ def build(rng, labels=None, k=None):
         if rng.random() < 0.7 and labels[0] is not None and k > 1:
             labels[0] = None        # an unlabelled controller in front of the labelled ones
     labels = list(labels)[:k] + [None] * max(0, k - len(labels))
+    # controllers that are not addressed through an alias may carry any text as label, also text without a single letter
+    quiet = [None if l is not None or rng.random() < 0.6 else rng.choice(SYMBOL_LABELS) for l in labels]
     mm.user_defined_controllers = k
     slots = []
     for i in range(k):
         mi, ci, lo, hi, name = pool[i]
         mm.mappings.values[i] = mm.Mapping((mi, ci))
-        mm.user_defined[i].label = labels[i]
+        mm.user_defined[i].label = labels[i] if labels[i] is not None else quiet[i]
         slots.append({"label": labels[i], "alias": None if labels[i] is None else "u_" + labels[i].lower(), "lo": lo, "hi": hi, "target": name})
     mm.update_user_defined_controllers()
     return mm, slots
@@ -117,6 +120,14 @@ def probe(res, prop, mm, slots, rng, desc, others=(), domain=False, where="const
                         setattr(mm, s["alias"], v)
                     except Exception:
                         pass
+    # the module's own controllers stay what they are, whatever the labels look like
+    try:
+        v = rng.randint(0, 1024)
+        mm.volume = v
+        if mm.volume != v:
+            res.violation(f"{prop}:readback:MetaModule.volume:with-labels", f"{where}: MetaModule.volume = {v} reads {mm.volume} on a module with labels {[t['label'] for t in slots]}", dict(desc, where=where))
+    except Exception as e:
+        res.violation(f"{prop}:inrange-raised:MetaModule.volume:with-labels", f"{where}: MetaModule.volume = {v} raised {e!r} (labels on the module: {[c.label for c in mm.user_defined[:k]]})", dict(desc, where=where))
     # a name that is nobody's label is not an alias
     for ghost in ("u_nosuchlabel",):
         try:
